@@ -31,6 +31,30 @@ def gen_world(rng):
     items, truth = [], []
     anchor = None            # (true instant of the last valid report, clock error then) ; error in ns (Fraction)
     running = False
+    def client_call(t):
+        # ---- a client call at true instant tc (monotonic), realtime read first
+        tc = t + rng.choice([0, 1, rng.randrange(NS), 4 * NS + rng.randrange(2 * NS), rng.randrange(1200 * NS)])
+        if anchor is None:
+            e_c = Fraction(rng.randrange(-3 * 10 ** 8, 3 * 10 ** 8))
+        else:
+            lim = abs(anchor[1]) + rho * (tc - anchor[0])
+            e_c = lim * rng.choice([1, -1, 1, -1, Fraction(1, 2), 0])
+        # the two clock reads of now() happen at true instants tc and tc + g (preemption between them);
+        # the realtime clock's error keeps moving along the edge of the drift cone meanwhile
+        g = rng.choice([0, 0, 1000, 10 ** 6, 10 ** 8, 250 * 10 ** 6, 2 * NS])
+        if anchor is None:
+            e_c2 = e_c
+        else:
+            sign = 1 if e_c > 0 else (-1 if e_c < 0 else rng.choice([1, -1]))
+            e_c2 = e_c + sign * rho * g
+        real1, mono1 = math.floor(tc + OFF + e_c), tc
+        real2, mono2 = math.floor(tc + g + OFF + e_c2), tc + g
+        items.append(("C", real1, mono1, real2, mono2))
+        # the interval is a claim about true time at the instant the realtime clock was read
+        truth.append((tc + OFF, tc + g + OFF))
+        t = max(t, mono2) + rng.choice([1, NS, 2 * NS])
+        return t
+
     n = rng.randrange(4, 22)
     for _ in range(n):
         k = rng.random()
@@ -81,32 +105,26 @@ def gen_world(rng):
             truth.append(None)
             t += d + rng.choice([NS, NS + rng.randrange(NS), 3 * NS, 7 * NS, 400 * NS])
         elif k < 0.93:
-            # ---- a client call at true instant tc (monotonic), realtime read first
-            tc = t + rng.choice([0, 1, rng.randrange(NS), 4 * NS + rng.randrange(2 * NS), rng.randrange(1200 * NS)])
-            if anchor is None:
-                e_c = Fraction(rng.randrange(-3 * 10 ** 8, 3 * 10 ** 8))
-            else:
-                lim = abs(anchor[1]) + rho * (tc - anchor[0])
-                e_c = lim * rng.choice([1, -1, 1, -1, Fraction(1, 2), 0])
-            # the two clock reads of now() happen at true instants tc and tc + g (preemption between them);
-            # the realtime clock's error keeps moving along the edge of the drift cone meanwhile
-            g = rng.choice([0, 0, 1000, 10 ** 6, 10 ** 8, 250 * 10 ** 6, 2 * NS])
-            if anchor is None:
-                e_c2 = e_c
-            else:
-                sign = 1 if e_c > 0 else (-1 if e_c < 0 else rng.choice([1, -1]))
-                e_c2 = e_c + sign * rho * g
-            real1, mono1 = math.floor(tc + OFF + e_c), tc
-            real2, mono2 = math.floor(tc + g + OFF + e_c2), tc + g
-            items.append(("C", real1, mono1, real2, mono2))
-            # the interval is a claim about true time at the instant the realtime clock was read
-            truth.append((tc + OFF, tc + g + OFF))
-            t = max(t, mono2) + rng.choice([1, NS, 2 * NS])
-        else:
+            t = client_call(t)
+        elif k < 0.965:
             items.append(("R", t))
             truth.append(None)
             running = False
             t += rng.choice([NS, 3 * NS])
+        else:
+            # the daemon dies in the middle of a publication (generation left odd, the as-of of the record
+            # it was storing already in place), often long after its last good report; sometimes the
+            # client process is replaced as well, so that it attaches to the segment in that state
+            t += rng.choice([0, NS, 400 * NS])
+            items.append(("K", t))
+            truth.append(None)
+            running = False
+            if rng.random() < 0.6:
+                items.append(("F",))
+                truth.append(None)
+            t += rng.choice([1, NS, 3 * NS])
+            for _c in range(rng.randrange(1, 3)):
+                t = client_call(t)
     return drift, cfg, items, truth
 
 
@@ -147,16 +165,21 @@ def run(res, proofs_ok, proofs_why, only=None):
     lines = [line_of(w[0], w[1], w[2]) for w in worlds]
     impl = c.run_lines_in_namespace(binary, lines, timeout=3000)
     model = c.run_model([model_line_of(w[0], w[1], w[2]) for w in worlds])
-    res.rule = ("worlds of 4..22 events (poll iterations of every outcome class, client calls, daemon restarts); the clock error follows the edge of the drift cone in 2/3 of the "
+    res.rule = ("worlds of 4..22 events (poll iterations of every outcome class, client calls with time passing between their two clock reads, daemon restarts, daemon deaths in "
+                "the middle of a publication, replacement of the client process); the clock error follows the edge of the drift cone in 2/3 of the "
                 "client calls; non-trivial = world with at least one client call that returned Synchronized or FreeRunning after a synchronised report")
     diffs, bad = [], []
     for w, ln, i, m in zip(worlds, lines, impl, model):
         res.evaluations += 1
         toks = i.split()
-        trusted = sum(1 for x in toks if x.startswith("c:ok:") and x.endswith((":1", ":2")))
+        stat = [x.split(":")[4] for x in toks if x.startswith("c:ok:")]
+        trusted = sum(1 for x in stat if x in ("1", "2"))
         res.count("client-calls-trusted", trusted)
-        res.count("client-calls-unknown", sum(1 for x in toks if x.startswith("c:ok:") and x.endswith(":0")))
+        res.count("client-calls-unknown", sum(1 for x in stat if x == "0"))
+        res.count("client-calls-with-time-passing-between-the-reads", sum(1 for it in w[2] if it[0] == "C" and it[4] != it[2]))
         res.count("restarts", sum(1 for x in toks if x == "r"))
+        res.count("daemon-deaths-mid-publication", sum(1 for x in toks if x == "k"))
+        res.count("client-process-replaced", sum(1 for x in toks if x == "f"))
         if trusted:
             res.nontriv(ln)
         # the order of the clock reads (last field of a client result) is judged by the oracle, the rest is compared
@@ -192,7 +215,7 @@ def replay(res, path):
     t = ln.split()
     items, k = [], 4
     for _ in range(int(t[3])):
-        n = {"P": 15, "C": 5, "R": 2}[t[k]]
+        n = {"P": 15, "C": 5, "R": 2, "K": 2, "F": 1}[t[k]]
         items.append(tuple([t[k]] + [int(x) for x in t[k + 1:k + n]]))
         k += n
     m = c.run_model([model_line_of(int(t[1]), int(t[2]), items)])[0]
